@@ -436,15 +436,15 @@ headers, kinds of statements and the names they bind) they had when the model wa
 loop, early exit or rebinding has been added that the model does not describe -/
 theorem modelled_functions_have_the_transcribed_shape :
     MlVerif.Gen.C08.shapeFitTask =
-      "ind=;if(not numpy.any(ind)){return};Xi=;yi=;sw=;if(nb_classes is not None and len(set(yi)) != nb_classes){if(random_state is None){random_state=};addition=;call shuffle;found=;allcl=;res=;while(len(found) < len(allcl)){for(ki in addition){if(y[ki] not in found){call append;call add}}};ind=;for(ki in res){ind[]=};Xi=;yi=;sw=};return" ∧
+      "sig(i, model, X, y, sample_weight, association, nb_classes, random_state)|ind=;if(not numpy.any(ind)){return};Xi=;yi=;sw=;if(nb_classes is not None and len(set(yi)) != nb_classes){if(random_state is None){random_state=};addition=;call shuffle;found=;allcl=;res=;while(len(found) < len(allcl)){for(ki in addition){if(y[ki] not in found){call append;call add}}};ind=;for(ki in res){ind[]=};Xi=;yi=;sw=};return" ∧
     MlVerif.Gen.C08.shapePredictTask =
-      "ind=;if(not numpy.any(ind)){return};return" ∧
+      "sig(i, est, X, association)|ind=;if(not numpy.any(ind)){return};return" ∧
     MlVerif.Gen.C08.shapeTransformBins =
-      "binner=;if(hasattr(binner, 'tree_')){dec_path=;association=;association[]=;for(j in self.leaves_){ind=;ind=;if(not numpy.any(ind)){continue};association[]=}}else{if(hasattr(binner, 'transform')){association=;association[]=;tr=;for((i,x) in enumerate(tr)){d=;association[]=}}else{raise}};return" ∧
+      "sig(self, X)|binner=;if(hasattr(binner, 'tree_')){dec_path=;association=;association[]=;for(j in self.leaves_){ind=;ind=;if(not numpy.any(ind)){continue};association[]=}}else{if(hasattr(binner, 'transform')){association=;association[]=;tr=;for((i,x) in enumerate(tr)){d=;association[]=}}else{raise}};return" ∧
     MlVerif.Gen.C08.shapeMappingTrain =
-      "if(hasattr(binner, 'tree_')){tree=;leaves=;dec_path=;association=;association[]=;mapping=;ntree=;for(j in leaves){ind=;ind=;if(not numpy.any(ind)){continue};mapping[]=;association[]=;ntreeAdd=}}else{if(hasattr(binner, 'transform')){tr=;unique=;for(x in tr){d=;call add};leaves=;association=;association[]=;ntree=;mapping=;for((i,le) in enumerate(leaves)){mapping[]=};for((i,x) in enumerate(tr)){d=;association[]=}}else{raise}};return" ∧
+      "sig(self, X, binner)|if(hasattr(binner, 'tree_')){tree=;leaves=;dec_path=;association=;association[]=;mapping=;ntree=;for(j in leaves){ind=;ind=;if(not numpy.any(ind)){continue};mapping[]=;association[]=;ntreeAdd=}}else{if(hasattr(binner, 'transform')){tr=;unique=;for(x in tr){d=;call add};leaves=;association=;association[]=;ntree=;mapping=;for((i,le) in enumerate(leaves)){mapping[]=};for((i,x) in enumerate(tr)){d=;association[]=}}else{raise}};return" ∧
     MlVerif.Gen.C08.shapeApplyPredictMethod =
-      "assert;assert;if(isinstance(X, pandas.DataFrame)){X=};association=;indpred=;pred=;indall=;indall[]=;for((ind,p) in indpred){if(ind is None){continue};pred[]=;indall=};indall=;Xmissed=;if(Xmissed.shape[0] > 0){meth=;missed=;pred[]=};return" :=
+      "sig(self, X, method, parallelized, dimout, dtype=None)|assert;assert;if(isinstance(X, pandas.DataFrame)){X=};association=;indpred=;pred=;indall=;indall[]=;for((ind,p) in indpred){if(ind is None){continue};pred[]=;indall=};indall=;Xmissed=;if(Xmissed.shape[0] > 0){meth=;missed=;pred[]=};return" :=
   ⟨rfl, rfl, rfl, rfl, rfl⟩
 
 /-! ### non-vacuity: concrete instances satisfying the hypotheses -/
